@@ -62,6 +62,20 @@ Theorem silent_verify_backs_off : forall s f t c h fh r u, reachable s ->
     exists w, ph s'' = PSleep w /\ (u + 3072 <= w <= u + SIXTY_S)%N.
 Proof. intros s f t c h fh r u H. cbv zeta. exact (verify_failed_closed _ c h fh r u (reachable_advance_inv _ f t H)). Qed.
 
+(* the accessory's own script can drop a connection inside the connector's connection_made(True) window
+   (verify outcomes okfin / okrst: answer ok, then FIN / RST delta ticks later): firing that timer IS the
+   loss event of the controls Drop / DropReset, so every theorem here covers it without an external trigger *)
+Theorem scripted_loss_is_loss : forall s c u reset,
+    ph s = PPost c u -> ploss s = Some reset -> fire (TPhase u) s = lose_current reset c (set_now u s).
+Proof. exact scripted_loss_fire. Qed.
+
+(* an accessory that resets the link during re-subscription is NOT retried at once: back-off first *)
+Example scripted_reset_backs_off :
+  let s := run [0] true [DConnect 0; DConnect 0] [(VOkRst, 1000%N, 0%N); (VOk, 0%N, 0%N)] [(1%N, Ensure 1)] 20001%N in
+  In (1001%N, EvClosed 1) (trace s) /\ In (4073%N, EvOpened 2 0) (trace s) /\ count_dials (trace s) = 2 /\
+  connected s = true /\ opn s = [2] /\ tie s = false.
+Proof. vm_compute. repeat split; auto 20. Qed.
+
 (* no busy loop: the chain of immediate (no back-off) retries inside one step always ends
    within 2 + |hosts| + |advertised addresses| attempts - the cascade never runs out of fuel *)
 Theorem immediate_retry_bounded : forall s f t, reachable s ->
@@ -168,6 +182,7 @@ Print Assumptions backoff_bounds.
 Print Assumptions next_attempt_scheduled.
 Print Assumptions verify_in_flight_alive.
 Print Assumptions silent_verify_backs_off.
+Print Assumptions scripted_loss_is_loss.
 Print Assumptions immediate_retry_bounded.
 Print Assumptions retries_continue.
 Print Assumptions no_connector_while_closed.
